@@ -69,7 +69,7 @@ func c13Prop(c *sim.Case) {
 	nsc := sim.Pick(c, "nscopes", 4)
 	for i := 0; i < nsc; i++ {
 		if sim.Weighted(c, "scope.kind", 3, 1) == 0 {
-			o.Scopes = append(o.Scopes, sim.PickStr(c, "scope.std", "email", "profile", "offline_access", "openid", "groups"))
+			o.Scopes = append(o.Scopes, sim.PickStr(c, "scope.std", "email", "profile", "offline_access", "openid", "groups", "openid_groups", "OpenID", "https://idp.test/scopes/openid.read"))
 		} else {
 			o.Scopes = append(o.Scopes, c.Str("scope.s", scopeAlpha, 1, 8))
 		}
